@@ -43,6 +43,20 @@ def stepLine (line : String) : String :=
   | ["ISC", now, node, req] =>
     let r := (parseNode node).installC (natOr now) (parseISReq req)
     s!"{showNode r.1} | {showEffects r.2}"
+  | ["STOP", node] =>
+    let r := (parseNode node).stop
+    s!"{showNode r.1} | {showEffects r.2}"
+  | ["START", now, node, args] =>
+    -- args: restore=0/1 stopped=0/1 term=T vote=V dlog=<log> snap=nil|i.t.<cfg>
+    let kv := parseKV args
+    let snap : Option (Nat × Nat × Config) :=
+      let sv := kv.get "snap" "nil"
+      if sv == "nil" then none else
+      match sv.splitOn "." with
+      | i :: t :: rest => some (natOr i, natOr t, parseConfig (".".intercalate rest))
+      | _ => none
+    let d : Node.Disk := { term := natOr (kv.get "term"), vote := natOr (kv.get "vote"), log := parseLog (kv.get "dlog" "L0.0:-"), snap := snap }
+    showNode ((parseNode node).start (natOr now) (parseBool (kv.get "restore")) (parseBool (kv.get "stopped")) d)
   | ["ECHO", node] => showNode (parseNode node)
   | ["QUORUM", cfg, count] => showBool ((parseConfig cfg).hasQuorum (natOr count))
   | ["ELECTION", now, node] =>
